@@ -38,7 +38,7 @@ class C08(Engine):
     prop = "C08"
     name = "cli-sim+wellformedness-monitor"
     level = "exploration"
-    expected_kinds = {"emit_perm", "format_json", "prefix_chr", "prefix_line", "line_tail_lost", "tok_edit", "non_ascii", "multi_file", "synthetic_lists"}
+    expected_kinds = {"emit_perm", "format_json", "prefix_chr", "prefix_line", "line_tail_lost", "tok_edit", "non_ascii", "multi_file", "synthetic_lists", "hashseed"}
     rule_text = ("Single- and multi-file runs of the real main() over damaged and undamaged workload files in both formats; each human "
                  "run is paired with its `-f json` twin (W3) and re-run with K explicit permutations of Errors._inner (W4); W1/W2 are "
                  "evaluated on every printed report. Synthetic diagnostic lists (positions from a 4x4 grid, 1-3 highlights, catalogue "
@@ -221,8 +221,27 @@ class C08(Engine):
             argv = ["--no-colors"] + argv[2:]
         t = {k: v for k, v in sc.items() if k in ("files", "tree")}
         t["ops"] = [{"op": "cli", "argv": argv}]
-        key = ("c08twin", core.sha(json.dumps([self.tree_sig(sc), argv], sort_keys=True, default=str)))
+        key = ("c08twin", core.sha(json.dumps([self.tree_sig(sc), argv], sort_keys=True, default=str)), sc.get("twin_hashseed"))
         return key, t
+
+    def ensure_refs(self, scs):
+        """Twins that must run under another PYTHONHASHSEED (seam S7) are executed in a shard interpreter started with it."""
+        special = [sc for sc in scs if sc.get("twin_hashseed") is not None and self.twin(sc)[0] not in self.refcache]
+        for sc in special:
+            import os
+            import subprocess
+            import sys
+            from ..framework import resolved, VERIF
+            key, t = self.twin(sc)
+            env = dict(os.environ)
+            env["PYTHONHASHSEED"] = str(sc["twin_hashseed"])
+            env["NSIM_WORKERS"] = "1"
+            p = subprocess.run([sys.executable, "-c", "import sys; sys.path.insert(0, %r); from nsim import shard; shard.main()" % VERIF],
+                               input=json.dumps([resolved(t)]), capture_output=True, text=True, env=env, timeout=600)
+            if p.returncode != 0:
+                raise RuntimeError(f"hash-seed shard failed: {p.stderr[-1000:]}")
+            self.refcache[key] = json.loads(p.stdout)[0]
+        super().ensure_refs([sc for sc in scs if sc.get("twin_hashseed") is None])
 
     def tree_sig(self, sc):
         out = []
@@ -426,10 +445,59 @@ class C08(Engine):
             self.samples.append({"run": idx, "kind": kind, "fault": fk, "argv": sc["ops"][0]["argv"], "emit_perms": sc["ops"][0].get("emit_perms"),
                                  "n_diags": [len(f["diags"] or []) for rep in o.get("reports") or [] for f in rep["files"]]})
 
+    def hashseed_phase(self):
+        """Seam S7: the human-readable run and the JSON run of one command line are two processes; here they also get two
+        different PYTHONHASHSEEDs. Files, verdicts, diagnostics and their order must still agree (W3)."""
+        import os
+        import subprocess
+        import sys
+        from ..framework import resolved, VERIF
+        P = self.pools
+        q = self.tier == "quick"
+        nonfatal = [f for f in sorted(P.files) if P.cls[f] in ("clean", "notice", "erroneous")]
+        scs = []
+        for i in range(24 if q else 200):
+            rng = core.derive_rng("c08.hs", self.seed, i)
+            k = rng.randrange(3, 7)
+            tree = {"src": {}}
+            for j in range(k):
+                fid = nonfatal[rng.randrange(len(nonfatal))]
+                tree["src"][f"d{j}"] = {P.files[fid]["name"]: "@" + fid}
+            argv = rng.choice([["src"], ["src", f"src/d0"], ["."], []])
+            scs.append(resolved({"kind": "multi", "fault": "hashseed", "tree": tree, "ops": [{"op": "cli", "argv": ["-f", "json"] + argv}]}))
+        twins = []
+        for sc in scs:
+            key, t = self.twin(sc)
+            twins.append(resolved(t))
+        for hs in ([3] if q else [3, 11, 101]):
+            env = dict(os.environ)
+            env["PYTHONHASHSEED"] = str(hs)
+            env["NSIM_WORKERS"] = "4"
+            p = subprocess.run([sys.executable, "-c", "import sys; sys.path.insert(0, %r); from nsim import shard; shard.main()" % VERIF],
+                               input=json.dumps(twins), capture_output=True, text=True, env=env, timeout=900)
+            if p.returncode != 0:
+                raise RuntimeError(f"hash-seed shard failed: {p.stderr[-2000:]}")
+            trs = json.loads(p.stdout)
+            rs = self.pool.map(scs)
+            for j, (sc, r, tr) in enumerate(zip(scs, rs, trs)):
+                self.evaluations += 1
+                self.fire("hashseed")
+                if r.get("killed") or tr.get("killed"):
+                    continue
+                sc2 = dict(sc)
+                sc2["twin_hashseed"] = hs
+                key, _ = self.twin(sc2)
+                self.refcache[key] = tr
+                vs = self.judge(sc2, r, self.refcache)
+                if vs:
+                    self.record(6_000_000 + hs * 1000 + j, sc2, vs)
+        self.hashseeds = [0] + ([3] if q else [3, 11, 101])
+
     def run(self):
         self.prepare()
         self.run_bulk(self.scenarios(), chunk=8)
         self.run_bulk(self.api_scenarios(), chunk=24)
+        self.hashseed_phase()
         self.recheck_killed()
 
 
